@@ -160,6 +160,11 @@ def run_C03(run):
     cov['evaluations'] += tot['calls']
     cov['rule'] += ' || API surface: the full product of small per-parameter domains (valid values and every documented kind of invalid one) for ' \
                    f"{tot['callables']} public callables"
+    from . import kwforms
+    nkw = kwforms.run(run)
+    cov['transitions'] += nkw
+    cov['traces_validated_against_impl'] += nkw
+    cov['rule'] += f' || keyword spellings: {nkw} calls - every public callable by documented parameter names, in reverse order and for every positional/keyword split, against the positional call'
     from . import cls as clsmod
     from .. import common
     reg, neg, other, core = clsmod.c07_atoms(run.tier)
